@@ -37,6 +37,8 @@ pub(super) fn execute_create_from_rows<S: GraphSnapshot>(
                 continue;
             }
 
+            #[cfg(nervusdb_verif)]
+            use nervusdb_api::verif::chrono_shim as chrono;
             let external_id = ExternalId::from(
                 created_count as u64 + chrono::Utc::now().timestamp_nanos_opt().unwrap_or(0) as u64,
             );
